@@ -88,6 +88,9 @@ EvalCase(cs) ==
       kvs    == cs.kvs
       ps     == cs.ps
       shape  == TPShape(kvs, ps)
+      kvsV   == cs.kvs1                                  \* space 1: the TEST functions (Petrov-Galerkin forms; = space 0 otherwise)
+      psV    == cs.ps1
+      shapeV == TPShape(kvsV, psV)
       A      == RMat(cs.A)                               \* x-first:  A[i][k] = d x_i / d xi_k
       tv     == RVec(cs.t)
       AI     == Inv23(A)
@@ -96,6 +99,7 @@ EvalCase(cs) ==
       meshes == Tab(d, LAMBDA a : Mesh(kvs[a]))
       ncell  == Tab(d, LAMBDA a : Len(meshes[a]) - 1)
       pieces == Tab(d, LAMBDA a : Tab(ncell[a], LAMBDA m : G!Pieces(kvs[a], ps[a], R(meshes[a][m]))))
+      piecesV == Tab(d, LAMBDA a : Tab(ncell[a], LAMBDA m : G!Pieces(kvsV[a], psV[a], R(meshes[a][m]))))   \* same mesh
       fl     == cs.fields
       fC == RVec(fl.f)  f2C == RVec(fl.f2)  hC == RVec(fl.h)  gC == RMat(fl.g)  AF == RMat(fl.A)  cP == RQ(fl.c)
       AFI    == Inv23(AF).inv
@@ -107,11 +111,11 @@ EvalCase(cs) ==
             xi  == Tab(d, LAMBDA c : MVar(c, R(meshes[AxisOfCoord(d, c)][cell[AxisOfCoord(d, c)] + 1])))   \* xi_c = corner + t_c
             x   == Tab(d, LAMBDA i : MAdd(K(tv[i]), MSum(Tab(d, LAMBDA m : MScale(A[i][m], xi[m])))))
             \* 1-D polynomial (in t) of D^r of B-spline mi on this cell along axis a (zero if not active)
-            P1(a, mi, r) == LET pc == pieces[a][cell[a] + 1]  w == mi - pc.first + 1 IN
-                            IF w >= 1 /\ w <= ps[a] + 1 THEN G!PolyDerK(pc.poly[w], r) ELSE <<Zero>>
-            BFD(fl0, D) ==       \* D in x-first parametric order
-              LET mi == UnravelC(fl0, shape) IN
-              MTensor(Tab(d, LAMBDA c : P1(AxisOfCoord(d, c), mi[AxisOfCoord(d, c)], D[c])))
+            P1(sp, a, mi, r) == LET pc == (IF sp = 1 THEN piecesV ELSE pieces)[a][cell[a] + 1]  w == mi - pc.first + 1 IN
+                            IF w >= 1 /\ w <= (IF sp = 1 THEN psV ELSE ps)[a] + 1 THEN G!PolyDerK(pc.poly[w], r) ELSE <<Zero>>
+            BFD(sf, D) ==       \* sf = <<space, flat index>>;  D in x-first parametric order
+              LET mi == UnravelC(sf[2], IF sf[1] = 1 THEN shapeV ELSE shape) IN
+              MTensor(Tab(d, LAMBDA c : P1(sf[1], AxisOfCoord(d, c), mi[AxisOfCoord(d, c)], D[c])))
             E0  == Tab(d, LAMBDA q : 0)
             U(k) == Tab(d, LAMBDA q : IF q = k THEN 1 ELSE 0)
             U2(a, b) == Tab(d, LAMBDA q : (IF q = a THEN 1 ELSE 0) + (IF q = b THEN 1 ELSE 0))
@@ -122,8 +126,8 @@ EvalCase(cs) ==
                          MSum(Tab(d * d, LAMBDA q : LET a == ((q - 1) \div d) + 1  b == ((q - 1) % d) + 1 IN
                                                      MScale(Mul(JI[a][i], JI[b][j]), hp[a][b])))))
             Lin(c, vars) == MAdd(K(c[1]), MSum(Tab(d, LAMBDA q : MScale(c[q + 1], vars[q]))))
-            ub  == IF cs.bilinear THEN J ELSE I
-            vb  == I
+            ub  == <<0, IF cs.bilinear THEN J ELSE I>>      \* trial function: space 0, column index
+            vb  == <<1, I>>                                 \* test function: space 1, row index
             hgrad == KVec(Tab(d, LAMBDA m : hC[m + 1]))
             lv  == [t \in AB!LeafTokens |->
                      CASE t = "u" -> BFD(ub, E0)  [] t = "v" -> BFD(vb, E0)
@@ -145,11 +149,13 @@ EvalCase(cs) ==
                        [] OTHER -> K(Zero)]
         IN MIntegrate(AB!AbsEval(cs.tokens, lv), h)
       Active(a, mi, c) == LET f == pieces[a][c + 1].first IN mi >= f /\ mi <= f + ps[a]     \* B-spline mi lives on cell c
+      ActiveV(a, mi, c) == LET f == piecesV[a][c + 1].first IN mi >= f /\ mi <= f + psV[a]
       Entry(pr) ==
         LET I == pr[1]  J == pr[2]
-            mI == UnravelC(I, shape)  mJ == UnravelC(IF cs.bilinear THEN J ELSE I, shape)
+            mI == UnravelC(I, shapeV)
             cells == SelectSeq(MultiIndices(ncell),
-                               LAMBDA c : \A a \in 1..d : Active(a, mI[a], c[a]) /\ Active(a, mJ[a], c[a]))
+                               LAMBDA c : \A a \in 1..d : /\ ActiveV(a, mI[a], c[a])
+                                                          /\ cs.bilinear => Active(a, UnravelC(J, shape)[a], c[a]))
         IN Mul(absdet, FoldLeft(LAMBDA acc, c : Add(acc, CellVal(c, I, J)), Zero, cells))
   IN Tab(Len(cs.pairs), LAMBDA q : Entry(cs.pairs[q]))
 
